@@ -51,6 +51,7 @@ package crypki
 //@       arg(postUserSSHCertificate, n0 + j, 2) == request && arg(postUserSSHCertificate, n0 + j, 3) == s.endpoints[j] &&
 //@       ret(postUserSSHCertificate, n0 + j, 2) != nil)
 //@     invariant rangeindex >= 0 ==> err == ret(postUserSSHCertificate, n0 + rangeindex, 2)
+//@     invariant forall(k, n0 <= k && k < calls(postUserSSHCertificate), ret(postUserSSHCertificate, k, 2) != nil)
 //@     invariant len(s.endpoints) >= 1
 
 //@ # ---------------------------------------------------------------- C18 / C17: construction
